@@ -2,6 +2,10 @@ package main
 
 import (
 	"fmt"
+	"os"
+	"os/exec"
+	"strconv"
+	"strings"
 
 	"github.com/metrico/qryn/reader/logql/logql_parser"
 	"github.com/metrico/qryn/reader/logql/logql_transpiler_v2/clickhouse_planner"
@@ -129,6 +133,48 @@ func c08(r *h.Result, rng *h.Rng, tier string, replay string) error {
 	}
 	r.Rule = "text: grammar-directed metric queries (range aggregation rate/count_over_time/bytes_rate/bytes_over_time, or rate/sum/avg/max/min/first/last_over_time over `| unwrap`; optional vector aggregation sum/min/max/avg/count; optional topk/bottomk with k in 0..5; by/without in prefix, suffix and both positions; comparisons; inner selector = C07 generator) × contexts with step <, =, > range; every case is non-trivial; distinct by (query, context)"
 	if err := c08Text(r, rng.Fork(), n, mgen{extraFns: true, ms: tier != "quick"}); err != nil {
+		return err
+	}
+	np := 400
+	if tier != "quick" {
+		np = 10000
+	}
+	if strings.HasPrefix(tier, "post-canary:") {
+		// child process: run the real post-processors over the cases of the post stream (their goroutines have no recover)
+		n, _ := strconv.Atoi(strings.TrimPrefix(tier, "post-canary:"))
+		for i := 0; i < n; i++ {
+			c := genPostCase(rng)
+			fmt.Fprintln(os.Stderr, "case", i, c.From, c.To, c.Step, c.D, serPost(c.Rows))
+			if _, _, _, err := runPost(c); err != nil {
+				return err
+			}
+		}
+		return nil
+	}
+	postSeed := rng.U64() % (1 << 62)
+	child := exec.Command(os.Args[0], "C08", "-tier", fmt.Sprintf("post-canary:%d", np), "-seed", fmt.Sprint(postSeed), "-driver", h.DriverPath)
+	if out, err := child.CombinedOutput(); err != nil {
+		lines := strings.Split(strings.TrimSpace(string(out)), "\n")
+		last, trace := "", ""
+		for _, l := range lines {
+			if strings.HasPrefix(l, "case ") {
+				last = l
+			}
+			if strings.HasPrefix(l, "panic:") || strings.HasPrefix(l, "fatal error:") {
+				trace = l
+			}
+		}
+		r.Violate("C08/post-processor-crash", "the matrix post-processors (FixPeriodPlanner goroutine) kill the process: "+trace,
+			map[string]any{"case": last, "error": err.Error(), "trace": trace})
+		r.Count("post:child-crash")
+	} else if err := c08Post(r, h.NewRng(postSeed), np); err != nil {
+		return err
+	}
+	ns := 300
+	if tier != "quick" {
+		ns = 6000
+	}
+	if err := c08Sem(r, rng.Fork(), ns); err != nil {
 		return err
 	}
 	return nil
